@@ -436,11 +436,27 @@ impl std::ops::Neg for Quantity {
     }
 }
 
+impl Quantity {
+    /// The unit in which two quantities are compared: the smaller one of the two
+    /// units, to make sure that `a < b` is the same as `b > a` (see also: addition
+    /// and subtraction). A zero value can be converted to any unit (`8 km > 0`), so
+    /// a zero operand never determines the unit.
+    fn comparison_unit<'a>(&'a self, other: &'a Quantity) -> &'a Unit {
+        if self.is_zero() {
+            &other.unit
+        } else if other.is_zero() {
+            &self.unit
+        } else {
+            self.unit.smaller_unit(&other.unit)
+        }
+    }
+}
+
 impl PartialEq for Quantity {
     fn eq(&self, other: &Self) -> bool {
-        // Convert both operands to the smaller unit to make sure that a == b is
-        // the same as b == a (see also: addition and subtraction)
-        let common_unit = self.unit.smaller_unit(&other.unit);
+        // Convert both operands to a common unit to make sure that a == b is
+        // the same as b == a
+        let common_unit = self.comparison_unit(other);
         match (self.convert_to(common_unit), other.convert_to(common_unit)) {
             (Ok(self_converted), Ok(other_converted)) => {
                 self_converted.value == other_converted.value
@@ -452,9 +468,9 @@ impl PartialEq for Quantity {
 
 impl PartialOrd for Quantity {
     fn partial_cmp(&self, other: &Self) -> Option<std::cmp::Ordering> {
-        // Convert both operands to the smaller unit to make sure that a < b is
+        // Convert both operands to a common unit to make sure that a < b is
         // the same as b > a
-        let common_unit = self.unit.smaller_unit(&other.unit);
+        let common_unit = self.comparison_unit(other);
         let self_converted = self.convert_to(common_unit).ok()?;
         let other_converted = other.convert_to(common_unit).ok()?;
         self_converted.value.partial_cmp(&other_converted.value)
@@ -485,9 +501,9 @@ impl Quantity {
             return QuantityOrdering::NanOperand;
         }
 
-        // Convert both operands to the smaller unit to make sure that a < b is
+        // Convert both operands to a common unit to make sure that a < b is
         // the same as b > a
-        let common_unit = self.unit.smaller_unit(&other.unit);
+        let common_unit = self.comparison_unit(other);
         let (Ok(self_converted), Ok(other_converted)) = (
             self.convert_to(common_unit),
             other.convert_to(common_unit),
